@@ -569,7 +569,9 @@ class _FragmentCompiler:
                 else:
                     _StatementCompiler(self.state, emitter)(domain_stmts)
 
-                if domain.rst is not None:
+                # The data output of a synchronous memory read port is not affected by the reset of
+                # its clock domain (the memory read port cell that is emitted for it has no reset).
+                if domain.rst is not None and not isinstance(fragment, MemoryInstance):
                     rhs = _RHSValueCompiler(self.state, emitter, mode="curr")
                     rst = rhs(domain.rst)
                     rst = f"(1 & {rst})"
